@@ -46,7 +46,7 @@ static int runb(int argc, tok_t *a, out_t *o, fb_t f) {
   return 0;
 }
 #define OPB(fn) static int op_##fn(int argc, tok_t *a, out_t *o) { return runb(argc, a, o, mpz_##fn); }
-OPB(mul_2exp) OPB(tdiv_q_2exp) OPB(cdiv_q_2exp) OPB(fdiv_q_2exp) OPB(tdiv_r_2exp)
+OPB(mul_2exp) OPB(tdiv_q_2exp) OPB(cdiv_q_2exp) OPB(fdiv_q_2exp) OPB(tdiv_r_2exp) OPB(cdiv_r_2exp) OPB(fdiv_r_2exp)
 /* alias_<fn> <q> <n> <d> <v0..v3>: mpz_<fn> (var q, var n, d); output: return value, then the four variables */
 typedef mpir_ui (*fu_t)(mpz_ptr, mpz_srcptr, mpir_ui);
 static int runu(int argc, tok_t *a, out_t *o, fu_t f) {
@@ -158,7 +158,7 @@ const opdef_t ops_alias[] = {
   {"alias_divexact_ui", op_divexact_ui},
   {"alias_tdiv_q_ui", op_tdiv_q_ui}, {"alias_fdiv_q_ui", op_fdiv_q_ui}, {"alias_cdiv_q_ui", op_cdiv_q_ui},
   {"alias_mul_2exp", op_mul_2exp}, {"alias_tdiv_q_2exp", op_tdiv_q_2exp},
-  {"alias_tdiv_r_2exp", op_tdiv_r_2exp}, {"alias_cdiv_q_2exp", op_cdiv_q_2exp}, {"alias_fdiv_q_2exp", op_fdiv_q_2exp},
+  {"alias_tdiv_r_2exp", op_tdiv_r_2exp}, {"alias_cdiv_r_2exp", op_cdiv_r_2exp}, {"alias_fdiv_r_2exp", op_fdiv_r_2exp}, {"alias_cdiv_q_2exp", op_cdiv_q_2exp}, {"alias_fdiv_q_2exp", op_fdiv_q_2exp},
   {"alias_divexact", op_divexact},      /* the generator keeps to the documented domain: den != 0 and den | num */
   {0, 0}
 };
